@@ -96,10 +96,19 @@ type Between func(dir string, nextInc int) error
 
 // RunPlan executes all incarnations of p in fresh processes on one scratch directory.
 func RunPlan(p *plan.Plan, between Between) (*RunResult, error) {
+	return RunPlanPre(p, between, nil)
+}
+
+// RunPlanPre: like RunPlan, with a hook that prepares the scratch directory before the first incarnation.
+// The node's working directory is <scratch>/r<n>/w/w2 so that several levels of "../" stay inside the scratch.
+func RunPlanPre(p *plan.Plan, between Between, pre func(dir string)) (*RunResult, error) {
 	n := runCounter.Add(1)
 	dir := filepath.Join(scratchRoot, fmt.Sprintf("r%d", n))
 	if err := os.MkdirAll(dir, 0o755); err != nil {
 		return nil, err
+	}
+	if pre != nil {
+		pre(dir)
 	}
 	res := &RunResult{Plan: p, Dir: dir}
 	planPath := filepath.Join(dir, "plan.json")
